@@ -314,6 +314,11 @@ func (x *Exec) newBytes(name string, n int) []*smt.Term {
 		}
 		return ts
 	}
+	for _, in := range x.Inputs {
+		if in.Name == name && len(in.Terms) == n {
+			return in.Terms // the same input requested again on another path (environment stubs)
+		}
+	}
 	for i := range ts {
 		ts[i] = x.Ctx.Var(fmt.Sprintf("%s_%d", name, i), 8)
 	}
